@@ -3,11 +3,11 @@
 AST (python tuples)
   expr: ("int",z) ("str",s) ("bool",b) ("field",k) ("oos",k) ("local",x) ("srec",) ("oosall",) ("nr",)
         ("bin",op,a,b) ("and",a,b) ("or",a,b) ("not",a) ("neg",a) ("tern",c,a,b) ("coal",a,b)
-        ("maplit",[(k,v)]) ("index",b,i) ("call",f,[args])
+        ("maplit",[(k,v)]) ("index",b,i) ("call",f,[args]) ("fun1",name,a)
   stmt: ("assign",base,[idx],e,sugar) ("define",ty,x,e) ("assignsrec",e) ("unset",base,[idx]) ("if",[(c,body)],els|None)
         ("while",c,body) ("do",body,c) ("for1",k,e,body) ("for2",k,v,e,body) ("forc",[init],c|None,[upd],body)
         ("cond",c,body) ("break",) ("continue",) ("return",e|None) ("print",e) ("emit1",e) ("emitmap",e)
-        ("emitnamed",name,e,[keys]) ("filter",e) ("bare",e)
+        ("emitnamed",name,e,[keys]) ("filter",e) ("bare",e) ("callsub",name,[args])
   base: ("field",k) | ("oos",k) | ("local",x)
   func: dict(name, params=[(ty,x)], ret=ty, body=[stmt])
   prog: dict(funcs, begin=[[stmt]], main=[stmt], end=[[stmt]])
@@ -16,6 +16,8 @@ from vlib import coq_bytes, coq_z, coq_bool
 
 ARITH = {"+": "OAdd", "-": "OSub", "*": "OMul"}
 CMP = {"==": "CEq", "!=": "CNe", "<": "CLt", "<=": "CLe", ">": "CGt", ">=": "CGe"}
+FUN1 = {"typeof": "FTypeof", "is_absent": "FIsAbsent", "is_present": "FIsPresent", "is_error": "FIsError", "is_map": "FIsMap",
+        "is_string": "FIsString", "is_int": "FIsInt", "is_boolean": "FIsBool", "is_empty": "FIsEmpty", "length": "FLength"}
 TY = {"any": "TAny", "var": "TVar", "int": "TInt", "num": "TNum", "str": "TStr", "bool": "TBool", "map": "TMap",
       "float": "TFloat", "arr": "TArr", "funct": "TFunct"}
 
@@ -65,6 +67,8 @@ def m_expr(e):
         return "%s[%s]" % (m_expr(e[1]), m_expr(e[2]))
     if k == "call":
         return "%s(%s)" % (e[1], ", ".join(m_expr(a) for a in e[2]))
+    if k == "fun1":
+        return "%s(%s)" % (e[1], m_expr(e[2]))
     raise ValueError(k)
 
 
@@ -142,11 +146,15 @@ def m_stmt(s, ind):
         return "filter " + m_expr(s[1])
     if k == "bare":
         return m_expr(s[1])
+    if k == "callsub":
+        return "call %s(%s)" % (s[1], ", ".join(m_expr(a) for a in s[2]))
     raise ValueError(k)
 
 
 def m_func(f):
     ps = ", ".join((x if t == "any" else "%s %s" % (t, x)) for t, x in f["params"])
+    if f.get("sub"):
+        return "subr %s(%s) %s" % (f["name"], ps, m_block(f["body"], 0))
     ret = "" if f["ret"] == "any" else ": " + f["ret"]
     return "func %s(%s)%s %s" % (f["name"], ps, ret, m_block(f["body"], 0))
 
@@ -211,6 +219,8 @@ def c_expr(e):
         return "(EIndex %s %s)" % (c_expr(e[1]), c_expr(e[2]))
     if k == "call":
         return "(ECall %s %s)" % (cb(e[1]), c_list(c_expr(a) for a in e[2]))
+    if k == "fun1":
+        return "(EFun1 %s %s)" % (FUN1[e[1]], c_expr(e[2]))
     raise ValueError(k)
 
 
@@ -265,12 +275,14 @@ def c_stmt(s):
         return "(SFilter %s)" % c_expr(s[1])
     if k == "bare":
         return "(SBare %s)" % c_expr(s[1])
+    if k == "callsub":
+        return "(SCall %s %s)" % (cb(s[1]), c_list(c_expr(a) for a in s[2]))
     raise ValueError(k)
 
 
 def coq_prog(p):
-    fs = c_list("{| f_name := %s; f_params := %s; f_ret := %s; f_body := %s |}" % (
-        cb(f["name"]), c_list("(%s, %s)" % (TY[t], cb(x)) for t, x in f["params"]), TY[f["ret"]], c_body(f["body"])) for f in p["funcs"])
+    fs = c_list("{| f_name := %s; f_sub := %s; f_params := %s; f_ret := %s; f_body := %s |}" % (
+        cb(f["name"]), coq_bool(bool(f.get("sub"))), c_list("(%s, %s)" % (TY[t], cb(x)) for t, x in f["params"]), TY[f["ret"]], c_body(f["body"])) for f in p["funcs"])
     return "{| p_funcs := %s; p_begin := %s; p_main := %s; p_end := %s |}" % (
         fs, c_list(c_body(b) for b in p["begin"]), c_body(p["main"]), c_list(c_body(b) for b in p["end"]))
 
@@ -294,7 +306,7 @@ def ss(s):
     return n
 
 
-STMT_KINDS = {"assign", "define", "assignsrec", "unset", "if", "while", "do", "for1", "for2", "forc", "cond", "break", "continue",
+STMT_KINDS = {"callsub", "assign", "define", "assignsrec", "unset", "if", "while", "do", "for1", "for2", "forc", "cond", "break", "continue",
               "return", "print", "emit1", "emitmap", "emitnamed", "filter", "bare"}
 
 # ------------------------------------------------------------------ generator
@@ -343,7 +355,7 @@ class Gen:
         r = self.rng
         choices = ["lit", "lit", "field", "local", "oos"]
         if d > 0:
-            choices += ["bin", "bin", "bin", "tern", "neg", "call", "index", "coal", "nr"]
+            choices += ["bin", "bin", "bin", "tern", "neg", "call", "index", "coal", "nr", "length"]
         for _ in range(6):
             c = r.choice(choices)
             if c == "lit":
@@ -374,6 +386,8 @@ class Gen:
                     return self.e_call(cx, r.choice(fs), d - 1)
             if c == "index":
                 return ("index", self.e_map(cx, d - 1, leaf="int"), self.e_key(cx))
+            if c == "length":
+                return ("fun1", "length", self.e_any(cx, d - 1))
         return ("int", r.randint(0, 5))
 
     def e_key(self, cx):
@@ -401,7 +415,7 @@ class Gen:
         r = self.rng
         choices = ["lit", "lit", "field", "local"]
         if d > 0:
-            choices += ["dot", "dot", "tern", "call", "dotint"]
+            choices += ["dot", "dot", "tern", "call", "dotint", "typeof"]
         for _ in range(6):
             c = r.choice(choices)
             if c == "lit":
@@ -416,6 +430,8 @@ class Gen:
                 return ("bin", ".", self.e_str(cx, d - 1), self.e_str(cx, d - 1))
             if c == "dotint":
                 return ("bin", ".", self.e_str(cx, d - 1), self.e_int(cx, d - 1))
+            if c == "typeof":
+                return ("fun1", "typeof", self.e_any(cx, d - 1))
             if c == "tern":
                 return ("tern", self.e_bool(cx, d - 1), self.e_str(cx, d - 1), self.e_str(cx, d - 1))
             if c == "call":
@@ -428,7 +444,7 @@ class Gen:
         r = self.rng
         choices = ["lit", "cmpi", "cmpi", "cmps", "local"]
         if d > 0:
-            choices += ["and", "or", "not", "cmpmix", "tern"]
+            choices += ["and", "or", "not", "cmpmix", "tern", "pred", "pred"]
         for _ in range(6):
             c = r.choice(choices)
             if c == "lit":
@@ -437,6 +453,9 @@ class Gen:
                 return ("bin", r.choice(list(CMP)), self.e_int(cx, max(0, d - 1)), self.e_int(cx, max(0, d - 1)))
             if c == "cmps":
                 return ("bin", r.choice(list(CMP)), self.e_str(cx, max(0, d - 1)), self.e_str(cx, max(0, d - 1)))
+            if c == "pred":
+                return ("fun1", r.choice(["is_absent", "is_present", "is_error", "is_map", "is_string", "is_int", "is_boolean", "is_empty"]),
+                        self.e_any(cx, d - 1))
             if c == "cmpmix":
                 return ("bin", r.choice(list(CMP)), self.e_any(cx, d - 1), self.e_any(cx, d - 1))
             if c == "local":
@@ -597,9 +616,15 @@ class Gen:
             kinds += ["return"] * 2
         if cx["fields"] and not cx["in_func"]:
             kinds += ["filter"]
+        subs = [f for f in self.funcs if f.get("sub") and f["name"] in cx["callable"]]
+        if subs:
+            kinds += ["callsub"] * 2
         if cx["fields"]:
             kinds += ["assignsrec"] if r.random() < 0.3 else []
         k = r.choice(kinds)
+        if k == "callsub":
+            f = r.choice(subs)
+            return ("callsub", f["name"], self.e_call(cx, f, 1)[2])
         if k == "assign":
             base, kind = self.lv_base_kind(cx)
             return ("assign", base, [], self.e_kind(cx, kind, 2), False)
@@ -638,12 +663,15 @@ class Gen:
                 self.oos_kind[name] = "map"
                 base = ("oos", name)
             elif c < 0.9:
-                ls = [n for n in self.lookup(cx["scopes"], "map") if n not in cx["unset_locals"]]
-                if ls:
+                ls = self.lookup(cx["scopes"], "map")
+                anyl = self.lookup(cx["scopes"])
+                if anyl and r.random() < 0.3:
+                    base = ("local", r.choice(anyl))        # may hold a scalar, be typed int/str/bool, or have been unset
+                elif ls:
                     base = ("local", r.choice(ls))
                 else:
                     name = self.fresh_local(cx["scopes"])
-                    if any(name in sc for sc in cx["scopes"]) or name in cx["unset_locals"]:
+                    if any(name in sc for sc in cx["scopes"]):
                         return None
                     cx["scopes"][-1][name] = ("map", None)
                     base = ("local", name)
@@ -654,7 +682,6 @@ class Gen:
             if r.random() < 0.25 and len(idx) >= 1:
                 val = ("bin", "+", self.as_rvalue(base, idx), self.e_int(cx, 0))
                 sugar = True
-            cx["idx_locals"].add(base[1]) if base[0] == "local" else None
             return ("assign", base, idx, val, sugar)
         if k == "unset":
             c = r.random()
@@ -662,7 +689,7 @@ class Gen:
                 return ("unset", ("field", r.choice(FIELDS_INT + FIELDS_STR + FIELD_NEW)), [])
             if c < 0.55:
                 return ("unset", ("oos", r.choice(OOS)), [self.e_key(cx)] if r.random() < 0.5 else [])
-            ls = [n for n in self.lookup(cx["scopes"]) if n not in cx["idx_locals"]]
+            ls = self.lookup(cx["scopes"])
             if ls:
                 name = r.choice(ls)
                 kind = None
@@ -672,7 +699,6 @@ class Gen:
                         break
                 if kind == "map" and r.random() < 0.6:
                     return ("unset", ("local", name), [self.e_key(cx)])
-                cx["unset_locals"].add(name)
                 return ("unset", ("local", name), [])
             return None
         if k == "print":
@@ -681,7 +707,12 @@ class Gen:
         if k == "emit":
             c = r.random()
             if c < 0.25:
-                return ("emit1", self.e_map(cx, 1))
+                # pending finding emit1-emits-map-by-reference: emit1 of a stored map (local/oosvar, or a sub-map of one) is
+                # changed by later in-place updates of that map; only freshly built maps are emitted here
+                e = self.e_map(cx, 1)
+                if e[0] in ("local", "oos", "index"):
+                    e = ("maplit", [(("str", "v"), e)]) if r.random() < 0.5 else ("srec",) if cx["fields"] else ("oosall",)
+                return ("emit1", e)
             if c < 0.5:
                 e = r.choice([("oosall",), self.e_map(cx, 1)])
                 if e[0] in ("local", "oos"):
@@ -725,11 +756,17 @@ class Gen:
             kn = r.choice(["k", "kk"])
             vn = r.choice(["e", "ee"])
             cxl = dict(cx, in_loop=True)
+            extra = []
+            if src[0] in ("local", "oos") and r.random() < 0.4:
+                # the body modifies the map it iterates over (the loop is over a copy)
+                extra = [r.choice([("assign", (src[0], src[1]), [("bin", ".", ("local", kn), ("str", "x"))], ("int", r.randint(0, 9)), False),
+                                   ("unset", (src[0], src[1]), [("local", kn)]),
+                                   ("assign", (src[0], src[1]), [("local", kn)], ("int", r.randint(0, 9)), False)])]
             if k == "for1":
                 cxl["scopes"] = cx["scopes"] + [{kn: ("str", None)}]
-                return ("for1", kn, src, self.block(cxl, depth - 1))
+                return ("for1", kn, src, extra + self.block(cxl, depth - 1))
             cxl["scopes"] = cx["scopes"] + [{kn: ("str", None), vn: (r.choice(["int", "str"]), None)}]
-            return ("for2", kn, vn, src, self.block(cxl, depth - 1))
+            return ("for2", kn, vn, src, extra + self.block(cxl, depth - 1))
         if k == "forc":
             self.counter += 1
             cn = "j%d" % self.counter
@@ -800,10 +837,30 @@ class Gen:
         sig["body"] = body
         return sig
 
+    def sub(self, idx):
+        r = self.rng
+        name = ["sa", "sb"][idx]
+        pnames = r.sample(["n", "aa", "bb"], r.randint(0, 2))
+        params, pscope = [], {}
+        for pn in pnames:
+            k = r.choice(KINDS)
+            t = r.choice({"int": ["int", "num", "any", "var"], "str": ["str", "any"], "bool": ["bool", "any"], "map": ["map", "any", "var"]}[k])
+            params.append((t, pn))
+            pscope[pn] = (k, t if t != "any" else None)
+        sig = {"name": name, "params": params, "ret": "any", "kind": "sub", "sub": True}
+        callable_ = [f["name"] for f in self.funcs]
+        self.funcs.append(sig)
+        # no return statement inside subroutines (pending finding subroutine-return-exits-caller-block)
+        cx = self.new_cx(fields=r.random() < 0.5, in_func=True, ret=None, scopes=[pscope, {}], callable_=callable_)
+        sig["body"] = self.block(cx, 2, n=r.randint(1, 4), new_scope=False)
+        return sig
+
     def program(self):
         r = self.rng
         for i in range(r.choice([0, 1, 1, 2, 3])):
             self.func(i)
+        for i in range(r.choice([0, 0, 1, 1, 2])):
+            self.sub(i)
         begin, end = [], []
         if r.random() < 0.5:
             cx = self.new_cx(fields=False)
@@ -817,7 +874,7 @@ class Gen:
                 b.append(r.choice([("emitmap", ("oosall",)), ("emitnamed", "sum", ("oos", "sum"), r.choice([[], ["g"], ["g", "h"]])),
                                    ("emitnamed", "m", ("oos", "m"), r.choice([[], ["g"]]))]))
             end.append(b)
-        funcs = [{"name": f["name"], "params": f["params"], "ret": f["ret"], "body": f["body"]} for f in self.funcs]
+        funcs = [{"name": f["name"], "params": f["params"], "ret": f["ret"], "body": f["body"], "sub": bool(f.get("sub"))} for f in self.funcs]
         return {"funcs": funcs, "begin": begin, "main": main, "end": end}
 
 
@@ -952,8 +1009,6 @@ def gen_case(rng):
     for _ in range(50):
         g = Gen(rng)
         p = g.program()
-        if hazards(p):
-            continue
         quiet = rng.random() < 0.15
         return {"prog": p, "text": mlr_prog(p), "inputs": gen_inputs(rng), "quiet": quiet}
     raise RuntimeError("generator could not produce a hazard-free program")
